@@ -195,7 +195,11 @@ func (e *env) program(rng *rand.Rand, i int, block *[]*pb.Transaction) {
 	}()
 	failing := rng.Intn(12) == 0
 	swallow := rng.Intn(10) == 0
-	p, kinds := genProg(rng, rng.Intn(4), 3+rng.Intn(23), true, sn.VerifContract)
+	depth := rng.Intn(2)
+	if rng.Intn(15) == 0 {
+		depth = 2 + rng.Intn(2) // deeper nesting re-enters a contract of the call chain: must fail cleanly
+	}
+	p, kinds := genProg(rng, depth, 3+rng.Intn(23), rng.Intn(6) == 0, sn.VerifContract)
 	if failing {
 		p.Fail()
 		kinds = append(kinds, "fail")
